@@ -180,9 +180,68 @@ fn check_consume(ctx: &mut Ctx, b: &[u8], class: &'static str) {
     }
 }
 
+impl M {
+    /// One buffer, refilled in place again and again (the way a caller reads fixed-size chunks of a file
+    /// into the same memory): junk + a cut message (error), then two messages whose second one starts
+    /// exactly where the first fill had its pattern, then junk + message, ... . Address and often also
+    /// length of the slice are the same from call to call; every call is judged by the bytes it is given.
+    fn reused_buffer_history(&mut self, ctx: &mut Ctx) {
+        let mut o = GenOpts::small();
+        o.force_storage = Some(true);
+        let p = ref_encode(&gen_msg(&mut ctx.rng, &o)).bytes;
+        let q = ref_encode(&gen_msg(&mut ctx.rng, &o)).bytes;
+        let k = p.len();
+        let junk = crate::mutate::gen_junk(&mut ctx.rng, k);
+        let c = 17 + ctx.rng.usize_below(q.len() - 16);
+        let tail_n = ctx.rng.range(0, 30) as usize;
+        let tail = ctx.rng.bytes(tail_n);
+        let mut qbad = q.clone();
+        if qbad.len() > 22 {
+            let n = qbad.len();
+            qbad[18] = 0;
+            qbad[19] = 3; // declared length below the header size: a hard error
+            let _ = n;
+        }
+        let mut fills: Vec<Vec<u8>> = vec![
+            [&junk[..], &q[..c.min(q.len() - 1)]].concat(),
+            [&p[..], &q[..]].concat(),
+            [&junk[..], &q[..]].concat(),
+            [&p[..], &q[..c.min(q.len() - 1)]].concat(),
+            [&junk[..], &qbad[..]].concat(),
+            [&p[..], &q[..], &tail[..]].concat(),
+            [&junk[..], &q[..], &tail[..]].concat(),
+        ];
+        // start with an erroring fill, continue in random order, repeat a few
+        let first = fills.remove(if ctx.rng.chance(1, 2) { 0 } else { 4 });
+        ctx.rng.shuffle(&mut fills);
+        let mut seq = vec![first];
+        seq.extend(fills);
+        let cap = seq.iter().map(|f| f.len()).max().unwrap_or(0) + 8;
+        let mut buf: Vec<u8> = Vec::with_capacity(cap);
+        let fi = ctx.rng.usize_below(self.filters.len());
+        for (n, f) in seq.iter().enumerate() {
+            if find_pattern(f).map_or(false, |at| at != 0 && at != k) {
+                continue; // junk formed an accidental pattern: skip this fill
+            }
+            buf.clear();
+            buf.extend_from_slice(f);
+            ctx.obs("history.reused_buffer_fill");
+            check_call(ctx, &buf, true, None, "reused_buffer", "exact");
+            if n % 2 == 1 {
+                let flt = (self.filters[fi].0, &self.filters[fi].1);
+                check_call(ctx, &buf, true, Some(flt), "reused_buffer", "exact");
+            }
+            check_consume(ctx, &buf, "reused_buffer");
+        }
+    }
+}
+
 impl Monitor for M {
     fn case(&mut self, ctx: &mut Ctx) {
         let light = ctx.light();
+        if ctx.index % 16 == 5 {
+            self.reused_buffer_history(ctx);
+        }
         match ctx.index % 4 {
             0 => {
                 // payload/declaration mismatches with bytes available behind the message
@@ -380,7 +439,7 @@ impl Monitor for M {
 
     fn describe(&self, ctx: &Ctx) -> J {
         super::describe(
-            "1/4 payload/declaration mismatches: a valid message whose LEN is exact / larger by 1-12 (slack) / smaller (arguments spill over the declared end) / extended to the end of the buffer, always with parseable bytes behind it (next message, a valid argument, random, zeros), parsed without filter, with one of 4 filters, and through dlt_consume_msg; 1/4 chains of 1-50 concatenated messages (1 in 40 chains is a buffer > 64 KiB of 700-2500 small or 2-5 maximum-size messages, 1 in 1600 a buffer > 1 MiB; storage mode with occasional junk between) walked by repeated parsing under no filter / a random filter / a drop-all filter and compared with independently computed boundaries; 1/2 inputs of all C02 classes (canonical, dialect, mutants, truncations, long-field attacks, arbitrary, header-shaped) x filter (4 fixed ones, and a random configuration for every third input) x storage mode, plus stored messages with one of the 16 largest declarable lengths through dlt_message and dlt_consume_msg. distinct = (storage mode, filter, class, mismatch sign, payload kind, result class); non-trivial = the call returned Ok",
+            "1/4 payload/declaration mismatches: a valid message whose LEN is exact / larger by 1-12 (slack) / smaller (arguments spill over the declared end) / extended to the end of the buffer, always with parseable bytes behind it (next message, a valid argument, random, zeros), parsed without filter, with one of 4 filters, and through dlt_consume_msg; 1/4 chains of 1-50 concatenated messages (1 in 40 chains is a buffer > 64 KiB of 700-2500 small or 2-5 maximum-size messages, 1 in 1600 a buffer > 1 MiB; storage mode with occasional junk between) walked by repeated parsing under no filter / a random filter / a drop-all filter and compared with independently computed boundaries; 1/2 inputs of all C02 classes (canonical, dialect, mutants, truncations, long-field attacks, arbitrary, header-shaped) x filter (4 fixed ones, and a random configuration for every third input) x storage mode, plus stored messages with one of the 16 largest declarable lengths through dlt_message and dlt_consume_msg; every 16th case is a history on ONE buffer refilled in place (junk + cut message, message pairs whose second message starts where the previous fill had its pattern, damaged messages, tails). distinct = (storage mode, filter, class, mismatch sign, payload kind, result class); non-trivial = the call returned Ok",
             &["the oracle uses only the pattern position, the constant 16 and the LEN/HTYP bytes of the input; whether a mismatching message is accepted or rejected is not its business", "ParsedMessage::Invalid is not counted as a successful parse"],
             &[("boundary.ok", super::scaled(ctx, 100000)), ("boundary.ok_on_mismatching_payload", super::scaled(ctx, 5000)), ("filtered.count_ok", super::scaled(ctx, 10000)), ("consume.ok", super::scaled(ctx, 10000)), ("chain.ok", super::scaled(ctx, 1000))],
         )
